@@ -42,12 +42,21 @@ func normalise(name string) (string, bool) {
 	return n.String(), true
 }
 
+var repoMemo = map[string]string{} // driver goroutine only
+
 func repositoryOf(norm string) string {
-	n, err := distribution.ParseNormalizedNamed(norm)
-	if err != nil {
-		return norm
+	if v, ok := repoMemo[norm]; ok {
+		return v
 	}
-	return n.Name()
+	v := norm
+	if n, err := distribution.ParseNormalizedNamed(norm); err == nil {
+		v = n.Name()
+	}
+	if len(repoMemo) > 4096 {
+		repoMemo = map[string]string{}
+	}
+	repoMemo[norm] = v
+	return v
 }
 
 // ---------------------------------------------------------------------------
@@ -306,7 +315,10 @@ const dg2 = "sha256:222222222222222222222222222222222222222222222222222222222222
 func genPool(rng *prng.R) refPool {
 	var p refPool
 	p.spellings = map[string][]string{}
-	type hostSpell struct{ norm string; prefixes []string }
+	type hostSpell struct {
+		norm     string
+		prefixes []string
+	}
 	choices := []hostSpell{
 		{"docker.io", []string{"", "docker.io/", "index.docker.io/"}},
 		{"registry-1.docker.io", []string{"registry-1.docker.io/"}},
@@ -458,7 +470,6 @@ func runSeqHistory(r *vf.Run, idx int, rng *prng.R) {
 			for _, host := range pool.qhosts {
 				st.queries++
 				u, s, err := creds(host, specs[ref])
-				r.Count("keychain_queries", 1)
 				if err != nil {
 					st.errors++
 					r.Distinct("keychain_query_errors", trimNum(err.Error()))
@@ -526,6 +537,7 @@ func runSeqHistory(r *vf.Run, idx int, rng *prng.R) {
 		}
 		sweep(i)
 	}
+	r.Count("keychain_queries", st.queries)
 	r.Count("keychain_nonempty_answers", st.nonEmpty)
 	r.Count("keychain_tempting_empty_answers", st.denied)
 	d := strings.Join(desc, "; ")
